@@ -195,7 +195,13 @@ def payloads(rows, sizes, bt, single):
             out.append(dicts[0] if k == 1 and single == "dict" else dicts)
         else:
             assert k == 1
-            out.append(rec[pos])
+            if single == "perrow":
+                # one record per streamed chunk: its dtype is inferred from that row alone (the first value of the
+                # float column is whole, so the first record carries an integer field, later ones a float field)
+                vals = [int(v) if isinstance(v, float) and pos == 0 and float(v).is_integer() else v for v in part[0]]
+                out.append(pd.DataFrame({c: [v] for c, v in zip(T.COLS, vals)}).to_records(index=False)[0])
+            else:
+                out.append(rec[pos])
         pos += k
     return out
 
@@ -205,6 +211,8 @@ def check_writer(case, acc, d):
 
     fmt, bs, bt, sizes, proto = case["fmt"], case["buffer_size"], case["buffer_type"], case["sizes"], case["protocol"]
     rows = T.table(sum(sizes))
+    if case.get("single") == "perrow" and rows:
+        rows = [(rows[0][0], 2.0) + tuple(rows[0][2:])] + list(rows[1:])  # whole-valued first float
     path = Path(d) / f"w.{fmt}"
     path.unlink(missing_ok=True)
     sig = f"writer-{'buffered' if bs > 1 else 'direct'}-{bt.lower()}-"
@@ -252,7 +260,7 @@ def writer_worker(item):
     d = worker_scratch().sub()
     cases = [dict(sizes=[n], protocol="write")]
     for sizes in sequences(n, bt, zeros):
-        for single in (("dict", "list") if bt == "Dicts" and 1 in sizes else (None,)):
+        for single in (("dict", "list") if bt == "Dicts" and 1 in sizes else ((None, "perrow") if bt == "Records" else (None,))):
             for proto in ("explicit", "context"):
                 cases.append(dict(sizes=list(sizes), protocol=proto, single=single))
     for c in cases:
